@@ -472,26 +472,23 @@ impl<
             // The first transition is a dummy that we insert, so if we land on
             // it here, treat it as if it doesn't exist.
             return None;
-        } else if index >= self.timestamps().len() - 1 {
-            if let Some(posix_tz) = self.posix_tz() {
-                // Since the POSIX TZ must be consistent with the last
-                // transition, it must be the case that next.timestamp <=
-                // posix_next_tans in all cases. So the transition according to
-                // the POSIX TZ is always correct here.
-                //
-                // What if this returns `None` though? I'm not sure in which
-                // cases that could matter, and I think it might be a violation
-                // of the TZif format if it does.
-                //
-                // In the "previous" case above, this could return `None` even
-                // when there are historical time zone transitions in the case
-                // of a time zone eliminating DST (e.g., `America/Sao_Paulo`).
-                // But unlike the previous case, if we get `None` here, then
-                // that is the real answer because there are no other known
-                // future time zone transitions.
-                return posix_tz.next_transition(ts);
-            }
-            self.timestamps().len() - 1
+        } else if index >= self.timestamps().len() {
+            // We are at or after the last transition in the TZif data, so
+            // the only transitions left are those generated by the POSIX TZ
+            // string (if any).
+            //
+            // In the "previous" case above, the POSIX TZ could return `None`
+            // even when there are historical time zone transitions in the
+            // case of a time zone eliminating DST (e.g.,
+            // `America/Sao_Paulo`). But unlike the previous case, if we get
+            // `None` here, then that is the real answer because there are
+            // no other known future time zone transitions.
+            //
+            // N.B. When the next transition is the last one in the TZif
+            // data, we must return it (and not defer to the POSIX TZ string),
+            // since the POSIX TZ string only applies after it. Otherwise, the
+            // last transition of, e.g., `Africa/Abidjan` is never returned.
+            return self.posix_tz()?.next_transition(ts);
         } else {
             index
         };
